@@ -122,6 +122,9 @@ func (r *dataReader) Read(b []byte) (n int, err error) {
 				r.state = stateEOF
 				continue
 			}
+			// Not part of .\r\n. Consume leading dot but not CR.
+			r.r.UnreadByte()
+			c = '\r'
 			r.state = stateData
 		case stateCR:
 			if c == '\n' {
